@@ -145,8 +145,8 @@ class Signal(object):
     def set_smooth_fa_frequecies_by_range(self, limits, n_points):
         lf = np.log10(limits)
         self._smooth_fa_freqs = np.logspace(lf[0], lf[1], n_points, base=10)
-        self._smooth_freq_range = np.array(limits)
         self._cached_smooth_fa = False
+        self._smooth_freq_range = np.array(limits)
 
     @property
     def smooth_freq_points(self):
